@@ -302,6 +302,337 @@ class Patch(Family):
         return {"construct": str(br)}
 
 
+# ------------------------------------------------------------------------------------------
+# round trips: save with the saver of version v, load through GlueUnSerializer
+# ------------------------------------------------------------------------------------------
+
+import gc  # noqa: E402
+from glue.core import Data, DataCollection  # noqa: E402
+from glue.core.registry import Registry  # noqa: E402
+from glue.core.link_helpers import LinkSame  # noqa: E402
+from glue.core.subset import RangeSubsetState, AndState, OrState, InvertState  # noqa: E402
+from glue.core.exceptions import IncompatibleAttribute  # noqa: E402
+from glue.core.coordinates import IdentityCoordinates  # noqa: E402
+
+PALETTE = ['#595959', '#ff0000', '#00ff00', '#0000ff', '#123456']
+CATS = ['a', 'b', 'c', 'd']
+
+
+class VersionedSerializer(GlueSerializer):
+    """GlueSerializer that writes the types in `force` with `dispatch.get_version(type, v)`; the
+    record is tagged `_protocol=v` by GlueSerializer.do exactly as for the newest version."""
+
+    def __init__(self, obj, force, **kw):
+        self.force = force
+        super().__init__(obj, **kw)
+
+    def _dispatch(self, obj):
+        if hasattr(obj, '__gluestate__'):
+            return super()._dispatch(obj)
+        for typ in type(obj).mro():
+            if typ in self.dispatch:
+                if typ in self.force:
+                    v = self.force[typ]
+                    return self.dispatch.get_version(typ, v), v
+                break
+        return super()._dispatch(obj)
+
+
+def _lab(sv):
+    return str(sv).replace(' ', '_')
+
+
+def _build_state(st, d):
+    k = st[0]
+    if k == 'gt':
+        return d.id[st[1]] > st[2]
+    if k == 'range':
+        return RangeSubsetState(st[2], st[3], d.id[st[1]])
+    if k == 'and':
+        return AndState(_build_state(st[1], d), _build_state(st[2], d))
+    if k == 'or':
+        return OrState(_build_state(st[1], d), _build_state(st[2], d))
+    if k == 'not':
+        return InvertState(_build_state(st[1], d))
+    raise ValueError(k)
+
+
+def _set_style(style, sv):
+    style.color = PALETTE[sv[0]]
+    style.markersize = sv[1]
+    style.alpha = sv[2] / 4.0
+
+
+def build_dc(recipe, cv):
+    datas, sels, links, joins, sgc = recipe
+    ds = []
+    for (label, comps, derived, style, meta, coords) in datas:
+        d = Data(label=label)
+        for (cl, kind, vals) in comps:
+            if kind == 'int':
+                d.add_component(np.array(vals, dtype=np.int64), cl)
+            elif kind == 'half':
+                d.add_component(np.array(vals, dtype=float) / 2, cl)
+            else:
+                d.add_component(np.array([CATS[v] for v in vals]), cl)
+        if coords == 'id':
+            d.coords = IdentityCoordinates(n_dim=1)
+        for der in derived:
+            if der[1] == 'dbl':
+                d[der[0]] = d.id[der[2]] * 2
+            else:
+                d[der[0]] = d.id[der[2]] + d.id[der[3]]
+        _set_style(d.style, style)
+        for k, v in meta:
+            d.meta[k] = v
+        ds.append(d)
+    dc = DataCollection(ds)
+    for (i, a, j, b) in links:
+        dc.add_link(LinkSame(ds[i].id[a], ds[j].id[b]))
+    for (i, aa, j, bb) in joins:
+        ds[i].join_on_key(ds[j], tuple(aa) if len(aa) > 1 else aa[0], tuple(bb) if len(bb) > 1 else bb[0])
+    keep = []
+    for (label, di, st, style) in sels:
+        state = _build_state(st, ds[di])
+        if cv == 1:   # protocol 1 pre-dates subset groups: plain subsets
+            sub = ds[di].new_subset(label=label)
+            sub.subset_state = state
+        else:
+            sub = dc.new_subset_group(label=label, subset_state=state)
+        _set_style(sub.style, style)
+        keep.append(sub)
+    dc._sg_count += sgc
+    return dc, ds, keep
+
+
+def _obs_style(st):
+    col = PALETTE.index(st.color) if st.color in PALETTE else _lab(st.color)
+    a4 = st.alpha * 4
+    return [col, st.markersize, int(a4) if a4 == int(a4) else 'frac']
+
+
+def _obs_vals(arr):
+    arr = np.asarray(arr)
+    if arr.dtype.kind in 'US':
+        return ['cat', [CATS.index(str(x)) for x in arr.ravel()]]
+    if arr.dtype.kind in 'iu':
+        return ['int', [int(x) for x in arr.ravel()]]
+    t = arr.ravel() * 2
+    if not np.all(t == np.round(t)):
+        return ['inexact', []]
+    return ['half', [int(x) for x in t]]
+
+
+def observe_dc(dc, orig_ds, care_uuid):
+    out = []
+    for k, d in enumerate(dc):
+        main = [[_lab(c.label)] + _obs_vals(d[c]) for c in d.main_components]
+        der = [[_lab(c.label)] + _obs_vals(d[c]) for c in d.derived_components]
+        subs = []
+        for sub in d.subsets:
+            try:
+                m = [int(x) for x in sub.to_mask().ravel()]
+            except IncompatibleAttribute:
+                m = 'inc'
+            subs.append([_lab(sub.label), m, _obs_style(sub.style)])
+        if all(isinstance(a, tuple) and isinstance(b, tuple) for a, b in d._key_joins.values()):
+            kj = sorted([[_lab(o.label), [_lab(c.label) for c in a], [_lab(c.label) for c in b]]
+                         for o, (a, b) in d._key_joins.items()])
+        else:
+            kj = 'key-joins-not-tuples'
+        meta = sorted([[_lab(k_), _lab(v)] for k_, v in d.meta.items()])
+        parents = all(c.parent is d for c in d.main_components)
+        coords = 'none' if d.coords is None else type(d.coords).__name__
+        world = [_lab(c.label) for c in d.world_component_ids]
+        pix = [_lab(c.label) for c in d.pixel_component_ids]
+        if not care_uuid:
+            uu = None
+        else:
+            uu = bool(k < len(orig_ds) and d.uuid == orig_ds[k].uuid)
+        out.append([_lab(d.label), main, der, subs, _obs_style(d.style), kj, meta, bool(parents), coords, world, pix, uu])
+    groups = [[_lab(g.label), _obs_style(g.style)] for g in dc.subset_groups]
+    return [out, groups, dc._sg_count, len(dc.external_links)]
+
+
+def gen_recipe(rng, small=False):
+    nd = rng.randint(1, 2 if small else 3)
+    datas = []
+    for k in range(nd):
+        n = rng.randint(1, 4 if small else 5)
+        comps = []
+        for c in range(rng.randint(1, 3)):
+            kind = 'int' if c == 0 else rng.choice(['int', 'int', 'half', 'cat'])
+            vals = [rng.randint(0, 3) if kind == 'cat' else rng.randint(-3, 6) for _ in range(n)]
+            comps.append(['c%d%d' % (k, c), kind, vals])
+        derived = []
+        if rng.random() < 0.45:
+            nums = [c[0] for c in comps if c[1] in ('int', 'half')]
+            if rng.random() < 0.5 or len(nums) < 2:
+                derived.append(['z%d' % k, 'dbl', rng.choice(nums)])
+            else:
+                a, b = rng.sample(nums, 2)
+                derived.append(['z%d' % k, 'sum', a, b])
+        style = [rng.randint(0, 4), rng.randint(1, 9), rng.randint(0, 4)]
+        meta = [['m%d' % i, rng.choice([1, 2, 'txt', 'other'])] for i in range(rng.randint(0, 2))]
+        coords = rng.choice(['none', 'none', 'id'])
+        datas.append(['d%d' % k, comps, derived, style, meta, coords])
+
+    def st(ints, depth=0):
+        r = rng.random()
+        if depth < 2 and r < 0.15:
+            return ['and', st(ints, depth + 1), st(ints, depth + 1)]
+        if depth < 2 and r < 0.25:
+            return ['or', st(ints, depth + 1), st(ints, depth + 1)]
+        if depth < 2 and r < 0.35:
+            return ['not', st(ints, depth + 1)]
+        if r < 0.7:
+            return ['gt', rng.choice(ints), rng.randint(-2, 5)]
+        lo = rng.randint(-3, 4)
+        return ['range', rng.choice(ints), lo, lo + rng.randint(0, 4)]
+    sels = []
+    for i in range(rng.randint(0, 2)):
+        di = rng.randrange(nd)
+        ints = [c[0] for c in datas[di][1] if c[1] == 'int']
+        sels.append(['s%d' % i, di, st(ints), [rng.randint(0, 4), rng.randint(1, 9), rng.randint(0, 4)]])
+    links, joins = [], []
+    if nd >= 2:
+        r = rng.random()
+        i, j = rng.sample(range(nd), 2)
+        ai = [c[0] for c in datas[i][1] if c[1] == 'int']
+        bj = [c[0] for c in datas[j][1] if c[1] == 'int']
+        if r < 0.3 and len(datas[i][1][0][2]) == len(datas[j][1][0][2]):
+            links.append([i, rng.choice(ai), j, rng.choice(bj)])
+        elif r < 0.75:
+            m = 2 if (len(ai) >= 2 and len(bj) >= 2 and rng.random() < 0.35) else 1
+            joins.append([i, ai[:m], j, bj[:m]])
+    return [datas, sels, links, joins, rng.randint(0, 3)]
+
+
+FIXED_RECIPES = [
+    # two datasets, derived component, both selection kinds, a link
+    [[['d0', [['x', 'int', [1, 2, 3, 4]], ['y', 'half', [3, 4, 5, 6]], ['c', 'cat', [0, 1, 0, 2]]], [['z', 'dbl', 'x']], [1, 7, 2], [['k', 3], ['s', 'st']], 'none'],
+      ['d1', [['u', 'int', [1, 2, 3, 9]], ['w', 'int', [3, 1, 2, 2]]], [], [2, 5, 4], [], 'id']],
+     [['s0', 0, ['gt', 'x', 2], [3, 4, 3]], ['s1', 1, ['and', ['gt', 'u', 1], ['not', ['range', 'u', 3, 9]]], [4, 2, 1]]],
+     [[0, 'x', 1, 'u']], [], 2],
+    # single-component key join
+    [[['d0', [['x', 'int', [1, 2, 3, 4]]], [['z', 'sum', 'x', 'x']], [1, 7, 2], [['k', 3]], 'none'],
+      ['d1', [['u', 'int', [1, 2, 3]], ['w', 'half', [3, 1, 2]]], [['q', 'sum', 'u', 'w']], [2, 5, 4], [], 'none']],
+     [['s0', 0, ['gt', 'x', 2], [3, 4, 3]], ['s1', 1, ['range', 'u', 2, 2], [0, 1, 0]]],
+     [], [[1, ['u'], 0, ['x']]], 0],
+    # two-component key join
+    [[['d0', [['x', 'int', [1, 2, 3, 4]], ['y', 'int', [0, 0, 1, 1]]], [], [0, 3, 4], [], 'none'],
+      ['d1', [['u', 'int', [1, 2, 3]], ['w', 'int', [0, 1, 1]]], [], [2, 5, 4], [['m', 'v']], 'none']],
+     [['s0', 1, ['or', ['gt', 'u', 2], ['gt', 'w', 0]], [3, 4, 3]]],
+     [], [[0, ['x', 'y'], 1, ['u', 'w']]], 1],
+    # one bare dataset
+    [[['d0', [['x', 'int', [5]]], [], [0, 3, 0], [], 'none']], [], [], [], 0],
+]
+
+
+class RoundTrip(Family):
+    """(Data version dv) x (DataCollection version cv) x generated collections: written with the
+    savers of those versions, loaded back through GlueUnSerializer, observed."""
+    name = "rt"
+    exhaustive = False
+    batch = 40
+    budget_share = 6.0
+    case_timeout = 30.0
+
+    def setup(self):
+        self.dvs = sorted(GlueSerializer.dispatch._data[Data])
+        self.cvs = sorted(GlueSerializer.dispatch._data[DataCollection])
+
+    def cases(self, tier, rng):
+        self.setup()
+        for r in FIXED_RECIPES:
+            for dv in self.dvs:
+                for cv in self.cvs:
+                    yield [dv, cv, r]
+        n = 220 if tier == "quick" else 4000
+        for t in range(n):
+            r = gen_recipe(rng, small=(t % 3 == 0))
+            if tier == "quick":
+                # every Data version with the newest collection, every collection version with the
+                # newest Data, and two random pairs
+                pairs = {(dv, self.cvs[-1]) for dv in self.dvs} | {(self.dvs[-1], cv) for cv in self.cvs}
+                pairs |= {(rng.choice(self.dvs), rng.choice(self.cvs)) for _ in range(2)}
+            else:
+                pairs = {(dv, cv) for dv in self.dvs for cv in self.cvs}
+            for dv, cv in sorted(pairs):
+                yield [dv, cv, r]
+
+    _n = 0
+
+    def reset(self):
+        Registry()._registry.clear()
+        # cyclic garbage of earlier cases (Subset.__del__ broadcasts) is collected here, between
+        # cases, never while a case is being observed (gc is disabled during a case)
+        RoundTrip._n += 1
+        if RoundTrip._n % 25 == 0:
+            gc.collect()
+
+    def run_impl(self, case):
+        dv, cv, recipe = case
+        gc_was = gc.isenabled()
+        gc.disable()
+        try:
+            dc, ds, keep = build_dc(recipe, cv)
+            try:
+                txt = VersionedSerializer(dc, {Data: dv, DataCollection: cv}, include_data=True).dumps()
+            except S.GlueSerializeError:
+                return "save-error"
+            rec = json.loads(txt)
+            # the records really are of the requested versions
+            for k, v in rec.items():
+                t = v.get('_type')
+                if t == 'glue.core.data.Data' and v.get('_protocol', 1) != dv:
+                    return ["wrong-protocol", "data", v.get('_protocol', 1)]
+                if t == 'glue.core.data_collection.DataCollection' and v.get('_protocol', 1) != cv:
+                    return ["wrong-protocol", "dc", v.get('_protocol', 1)]
+            dc2 = GlueUnSerializer.loads(txt).object('__main__')
+            out = observe_dc(dc2, ds, care_uuid=(dv >= 4))
+            del keep
+            return out
+        finally:
+            if gc_was:
+                gc.enable()
+
+    def line(self, case, pyout):
+        return sx(["rt", case, pyout])
+
+    def nontrivial(self, case, po):
+        return isinstance(po, list) and (case[0] < 5 or case[1] < 4)
+
+    def signature(self, case, po, res):
+        dv, cv, r = case
+        return {"dv": dv, "cv": cv, "derived": any(d[2] for d in r[0]), "joins": bool(r[3]),
+                "multi_join": any(len(j[1]) > 1 for j in r[3])}
+
+    def shrink(self, case):
+        dv, cv, (datas, sels, links, joins, sgc) = case
+        for i in range(len(sels)):
+            yield [dv, cv, [datas, sels[:i] + sels[i + 1:], links, joins, sgc]]
+        if links:
+            yield [dv, cv, [datas, sels, [], joins, sgc]]
+        if joins:
+            yield [dv, cv, [datas, sels, links, [], sgc]]
+        if sgc:
+            yield [dv, cv, [datas, sels, links, joins, 0]]
+        for k, d in enumerate(datas):
+            if d[2]:
+                yield [dv, cv, [datas[:k] + [[d[0], d[1], [], d[3], d[4], d[5]]] + datas[k + 1:], sels, links, joins, sgc]]
+            if d[4]:
+                yield [dv, cv, [datas[:k] + [[d[0], d[1], d[2], d[3], [], d[5]]] + datas[k + 1:], sels, links, joins, sgc]]
+            if d[5] != 'none':
+                yield [dv, cv, [datas[:k] + [[d[0], d[1], d[2], d[3], d[4], 'none']] + datas[k + 1:], sels, links, joins, sgc]]
+        # drop the last dataset when nothing refers to it
+        if len(datas) > 1:
+            k = len(datas) - 1
+            if not any(s_[1] == k for s_ in sels) and not any(k in (l[0], l[2]) for l in links) and not any(k in (j[0], j[2]) for j in joins):
+                yield [dv, cv, [datas[:k], sels, links, joins, sgc]]
+
+
+
 PROP = Property(
     id="C12",
     title="Every serialisation protocol version ever registered still loads what it saved",
@@ -314,7 +645,7 @@ PROP = Property(
         "C12.no_capture_witness_F12", "C12.registry_consecutive", "C12.saver_loader_versions_match",
         "C12.save_uses_newest_table", "C12.registry_keys_unique",
     ],
-    families=[Tables(), Dispatch(), Patch(), VDict()],
+    families=[Tables(), Dispatch(), Patch(), VDict(), RoundTrip()],
     pre_build=pre_build,
     trusted_base=[
         "harness/translate/c12.py reads the registries, PATH_PATCHES and the class table off the imported package and interns names (interning and the inside-'glue.' flags are re-checked by the compiled driver on every run, the live tables of the harness process are compared with the generated ones)",
